@@ -829,21 +829,23 @@ func init() {
 			}
 			env := BuildTables(c)
 			found := 0
-			for _, b := range f.Blocks {
-				for _, ins := range b.Instrs {
-					call, ok := ins.(*ssa.Call)
-					if !ok {
-						continue
-					}
+			isEnc := func(cl *ssa.Function) bool {
+				return cl != nil && (strings.HasPrefix(cl.Name(), "percentEncode") || cl.Name() == "PercentEncodeString" || isRuneEncoder(c, cl))
+			}
+			// the encoder calls of the escaper, looking through helpers of the module it delegates to
+			{
+				for _, x := range expandCalls(c, f, func(g *ssa.Function) bool { return c.P.InModule(g) && !isEnc(g) }, 2) {
+					call := x.Call
 					cl := call.Common().StaticCallee()
-					if cl == nil || !(strings.HasPrefix(cl.Name(), "percentEncode") || cl.Name() == "PercentEncodeString" || isRuneEncoder(c, cl)) {
+					if !isEnc(cl) {
 						continue
 					}
 					// the *PercentEncodeSet argument
-					for _, a := range call.Common().Args {
-						if namedOf(a.Type()) != "PercentEncodeSet" {
+					for _, a0 := range call.Common().Args {
+						if namedOf(a0.Type()) != "PercentEncodeSet" {
 							continue
 						}
+						a := x.Root(a0)
 						found++
 						var v interface{}
 						name := ""
@@ -882,6 +884,19 @@ func init() {
 			if f == nil {
 				s.Unknown("urlsplit/anchor", "-", "(*SearchParams).init not found")
 				return
+			}
+			// init may hand the work to a helper that grows the list it is given (decode(s.params[:0], query)): the loop is
+			// read there
+			if len(loopsOf(f)) == 0 {
+				for _, b := range f.Blocks {
+					for _, ins := range b.Instrs {
+						if call, ok := ins.(*ssa.Call); ok {
+							if g := call.Common().StaticCallee(); g != nil && c.P.InModule(g) && len(g.Blocks) > 0 && len(loopsOf(g)) > 0 && growsOwnParam(g) >= 0 {
+								f = g
+							}
+						}
+					}
+				}
 			}
 			var amp, eq []string
 			var ampPos, eqPos token.Pos
@@ -946,6 +961,8 @@ func init() {
 						if bi, ok := call.Common().Value.(*ssa.Builtin); ok && bi.Name() == "append" {
 							if _, ok := loadOfField(call.Common().Args[0], "SearchParams:params"); ok {
 								appendBlock = b
+							} else if sl, isSl := call.Type().Underlying().(*types.Slice); isSl && namedOf(sl.Elem()) == "NameValuePair" && f.Name() != "init" {
+								appendBlock = b // the helper's own list parameter
 							}
 						}
 					}
